@@ -395,7 +395,7 @@ func checkC18(c *Ctx, r *Report) {
 			continue
 		}
 		var evs []metricEvent
-		allInstrs(fn, false, func(in ssa.Instruction) {
+		rawInstrs(fn, false, func(in ssa.Instruction) {
 			if e, ok := mi.eventOf(in); ok {
 				evs = append(evs, e)
 			}
@@ -458,7 +458,7 @@ func checkC18(c *Ctx, r *Report) {
 	// D. no other touch points
 	r.Rule("no-stray-updates", "the accounted metrics are updated nowhere else in the library", 0)
 	for _, fn := range c.LibFuncs() {
-		allInstrs(fn, false, func(in ssa.Instruction) {
+		rawInstrs(fn, false, func(in ssa.Instruction) {
 			if e, ok := mi.eventOf(in); ok && !anchored[in] {
 				for _, w := range want {
 					if e.Metric == w {
